@@ -153,6 +153,25 @@ class Runner:
             # a failed set must not have half-happened: value is whatever it was
         self.read_all("after-set")
 
+    def op_set_multi(self):
+        """several properties in one PROPPATCH, in random order (what calendar clients send)"""
+        w, rng, res = self.w, self.rng, self.res
+        p, kind, backend, meta = rng.choice(COLS)
+        props = rng.sample(PROPS[kind], rng.randint(2, len(PROPS[kind])))
+        sets = [(pr, gen_value(rng, pr, meta, allow_nl=False)) for pr in props]
+        s, r, results = w.proppatch(p, sets=sets)
+        self.log.append({"op": "set-multi", "col": p, "sets": sets, "http": s.status, "propstat": {k: results.get(k) for k, _ in sets}})
+        res.evaluations += 1
+        res.count("multi_sets")
+        for pr, v in sets:
+            if results.get(pr) == 200:
+                self.model[p][pr] = v
+                self.provenance[p][pr] = "PROPPATCH with %d properties (%s)" % (len(sets), ", ".join(X.q(x) for x, _ in sets))
+                res.count("sets_ok")
+                res.count("sets_ok:" + feature(v))
+        res.seen(meta, "multi", tuple(sorted(X.q(x) for x, _ in sets)))
+        self.read_all("after-set")
+
     def op_remove(self):
         w, rng, res = self.w, self.rng, self.res
         p, kind, backend, meta = rng.choice(COLS)
@@ -277,7 +296,7 @@ def run_shard(args):
             w.mkcol("/user/contacts/ab0/", "addressbook")
         run.log.append({"op": "create-with-props", "cal0": [v1, v2], "ab0": [v3, v4]})
         run.read_all("after-create")
-        ops = [("set", 10), ("remove", 2), ("unsettable", 1), ("restart", 0.6), ("other", 1.5)]
+        ops = [("set", 10), ("set_multi", 3), ("remove", 2), ("unsettable", 1), ("restart", 0.6), ("other", 1.5)]
         for i in range(args["ops"]):
             op = rng.choices([o for o, _ in ops], [x for _, x in ops])[0]
             getattr(run, "op_" + op)()
@@ -300,8 +319,8 @@ def check(tier, seed, t0):
     merged = common.merge(results)
     c = merged["counters"]
     k = 1 if not th else 10
-    guards = [("sets", c.get("sets", 0), 500 * k), ("sets reported 200", c.get("sets_ok", 0), 300 * k), ("value comparisons after read-back", c.get("value_comparisons", 0), 3000 * k),
-              ("restarts", c.get("restarts", 0), 12), ("removes", c.get("removes", 0), 50 * k)]
+    guards = [("sets", c.get("sets", 0), 400 * k), ("sets reported 200", c.get("sets_ok", 0), 300 * k), ("value comparisons after read-back", c.get("value_comparisons", 0), 3000 * k),
+              ("restarts", c.get("restarts", 0), 12), ("removes", c.get("removes", 0), 50 * k), ("PROPPATCH requests setting several properties", c.get("multi_sets", 0), 80 * k)]
     for f in ("percent", "hash", "backslash", "dquote", "bracket", "equals", "colon", "nonascii", "plain"):
         guards.append(("successful sets with feature " + f, c.get("sets_ok:" + f, 0), 3))
     return common.finish(PROP, tier, seed, "exploration", merged, failures, RULE, t0, guards=guards,
